@@ -99,7 +99,31 @@ def streams(tier, rng, P, only=None, cases=None):
         return None
     def nt(c, impl, m): return impl[1].get("tracks1") if impl[0] == "ok" and c["changes"] >= 1 else None
     s1 = Stream("tie", cases if (cases and only == "tie") else mk(), model, judge, nt, "tied program vs plain program + model flush", timeout_case=20.0)
-    return [s for s in (s1,) if only in (None, s.name)]
+    # ---- the same pairs in the file: the notes after a group sound at the ticks they have without `&` (what the writer makes of the bend
+    #      range / bend events of a group must not move anything that follows)
+    from ..smfpy import smf_events
+    def mk_m():
+        cs = []
+        for i in range(3000 if big else 400):
+            t, p, gm, tb, groups, ch = gen_case(rng)
+            lead = rng.choice(["", "", "r4 ", "l4 c ", "r8 r8 r2 "])      # the first group need not start at tick 0
+            cs.append(dict(req="compile2 %s %s" % (hx(lead + t), hx(lead + p)), src=lead + t, plain=lead + p, show=lead + t, changes=ch, key="m%d" % i))
+        for j, (a, b) in enumerate([("l4 c d&e g n100", "l4 c d e g n100"), ("l4 Slur(1) r c&e g n100", "l4 Slur(1) r c e g n100")]):
+            cs.append(dict(req="compile2 %s %s" % (hx(a), hx(b)), src=a, plain=b, show=a, changes=1, key="mfixed%d" % j))
+        return cs
+    def m_judge(c, impl, m):
+        st, f = impl
+        if st != "ok": return ("violation", "tied program did not compile: " + st)
+        ta, tb_ = smf_events(f["bin1"]), smf_events(f["bin2"])
+        if ta is None or tb_ is None or len(ta) != len(tb_): return ("violation", "tied and plain program give different numbers of tracks")
+        for ti, (a, b) in enumerate(zip(ta, tb_)):
+            sa = [e[0] for e in a if e[1] == "on" and e[2][1] == 100]; sb = [e[0] for e in b if e[1] == "on" and e[2][1] == 100]
+            if sa != sb: return ("violation", "track %d: the notes after the groups start at ticks %s in the file, without & at %s" % (ti, sa[:8], sb[:8]))
+            if any(e[1] == "bad" for e in a): return ("violation", "track %d of the tied program is not a legal event stream" % ti)
+        return None
+    s2 = Stream("tiemidi", cases if (cases and only == "tiemidi") else mk_m(), lambda c, st, f: [], m_judge,
+                lambda c, i, m: i[1].get("bin1") if i[0] == "ok" and c["changes"] >= 1 else None, "tied vs plain program in the file: ticks of the notes after the groups", timeout_case=20.0)
+    return [s for s in (s1, s2) if only in (None, s.name)]
 
 def expected_from_plain(c, eb):
     """a tied group = a maximal run of consecutive note-ons carrying one marker velocity (111..113) in the plain run"""
